@@ -49,6 +49,12 @@ def main(argv=None):
     except core.HarnessError as e:
         print("HARNESS-ERROR property=%s %s" % (pid, e))
         return 2
+    except Exception as e:
+        # a crash of the machinery itself is never a verdict about the property
+        import traceback
+        print("HARNESS-ERROR property=%s internal error: %s: %s" % (pid, type(e).__name__, e))
+        traceback.print_exc()
+        return 2
     if os.environ.get('VERIF_DEBUG'):
         import collections
         h = collections.Counter()
